@@ -7,7 +7,7 @@ from symtrace import engine as E, harness as H, oblig as O
 from . import catalogue as CAT
 from . import common as C
 from .catjob import lookup, Job, gtag, cfg_json
-from .c01 import is_heavy
+from .c01 import is_heavy, is_very_heavy
 
 PID = "C06"
 
@@ -21,6 +21,8 @@ def jobs(tier):
         for e in ents:
             heavy = is_heavy(e)
             if heavy and n > 4:
+                continue
+            if is_very_heavy(e) and tier == "quick":
                 continue
             groups = [("plain", [dict(guard=None), dict(guard=None, ignore=True)])]
             if heavy and tier == "quick":
